@@ -651,7 +651,8 @@ next_frame:
         !(session->ws->rd_header[1] & WS_B1_MASK_BIT)) {
       /* Client has failed to mask the data */
       session->ws->close_reason = 1002;
-      coap_ws_close(session);
+      if (!session->ws->sent_close)
+        coap_ws_close(session);
       return 0;
     }
 
@@ -675,13 +676,15 @@ next_frame:
     if (op_code != WS_OP_BINARY && op_code != WS_OP_CLOSE) {
       /* Remote has failed to use correct opcode */
       session->ws->close_reason = 1003;
-      coap_ws_close(session);
+      if (!session->ws->sent_close)
+        coap_ws_close(session);
       return 0;
     }
     if (op_code == WS_OP_CLOSE) {
       coap_log_debug("WS: Close received\n");
       session->ws->recv_close = 1;
-      coap_ws_close(session);
+      if (!session->ws->sent_close)
+        coap_ws_close(session);
       return 0;
     }
 
@@ -707,7 +710,8 @@ next_frame:
                    " (%zu > %zu)\n", bytes_size, datalen);
       coap_handle_event_lkd(session->context, COAP_EVENT_WS_PACKET_SIZE, session);
       session->ws->close_reason = 1009;
-      coap_ws_close(session);
+      if (!session->ws->sent_close)
+        coap_ws_close(session);
       return 0;
     }
     coap_log_debug("*  %s: Packet size %zu\n", coap_session_str(session),
